@@ -64,9 +64,20 @@ for m in sorted(glob.glob(os.path.join(V, 'seeded/*/meta.json'))):
     d = json.load(open(m))
     rows.append('| %s | %s | %s | %s | %s |' % (os.path.basename(os.path.dirname(m)), d.get('property', ''), short(d.get('summary', '')),
                                            short(d.get('needs', '')), d.get('detected_by', d.get('detection', '')) + (' (first evaluation: NOT DETECTED; ' + d.get('strengthened', 'checks strengthened afterwards') + ')' if 'NOT DETECTED' in d.get('history', []) and d.get('detected_by') != 'NOT DETECTED' else '')))
+metas = [json.load(open(m)) for m in sorted(glob.glob(os.path.join(V, 'seeded/*/meta.json')))]
+n_all = len(metas)
+n_first = sum(1 for d in metas if d.get('detected_by') != 'NOT DETECTED' and 'NOT DETECTED' not in d.get('history', []))
+n_later = sum(1 for d in metas if d.get('detected_by') != 'NOT DETECTED' and 'NOT DETECTED' in d.get('history', []))
+n_open = sum(1 for d in metas if d.get('detected_by') == 'NOT DETECTED')
+n_other = sum(1 for d in metas if d.get('detected_by', '').split(' ')[0] not in ('NOT', d.get('property', '')))
+stats = ('**%d seeded changes** in three waves (two per property and wave; the third wave asked only for changes that need an interleaving, '
+         'a fault at a particular point, a multi-step sequence on the same object, or two cooperating sites). '
+         '%d were detected by the checks as they stood when the change arrived; %d were missed at first and are detected since the checks were strengthened '
+         '(what was added is quoted in the last column); %d are not detected. %d are reported by the check of a sibling property that owns the violated clause '
+         '(for example an ownership defect seeded under the fixpoint property is reported by C08): the column says which.\n\n') % (n_all, n_first, n_later, n_open, n_other)
 sec9 = ''
 if rows:
-    sec9 = ('Changes written by independent sub-agents that saw only the property text and a scratch worktree;\n'
+    sec9 = (stats + 'Changes written by independent sub-agents that saw only the property text and a scratch worktree;\n'
             'each compiles, passes the 594-test suite and comes with a demonstration that fails with it and passes without.\n'
             'Each was confirmed in a scratch worktree of /repo; the registered checks (same engine, harnesses and plan) were then run against that worktree with the change applied (VERIF_REPO), quick tier first, thorough if quick passed.\n\n'
             '(Summaries are cut here; the full text, the patch and the demonstration are in seeded/<seed>/.)\n\n'
